@@ -502,6 +502,21 @@ impl Workload for LoWorkload {
         let mut planted_found = 0u64;
         for (vi, (threads, sim)) in c.variants.iter().enumerate() {
             let tag = format!("o{vi}");
+            // every second execution finds output files of an earlier, larger run under its prefix
+            if (c.base.seed as usize + vi) % 2 == 0 {
+                let stale_fa: String = c.samples.iter().map(|s| format!(">{}\n{}\n", s.name, "ACGT".repeat(40))).collect();
+                let mut stale_vcf = String::from("##fileformat=VCFv4.2\n#CHROM\tPOS\tID\tREF\tALT\tQUAL\tFILTER\tINFO\tFORMAT\n");
+                for j in 0..40 {
+                    stale_vcf.push_str(&format!("stale\t{}\t.\tA\tC\t.\tbefore=AAAAAAAAAA;after=CCCCCCCCCC\t.\tGT{}\n", j + 1, "\t0".repeat(n)));
+                }
+                for suf in ["_snps.fas", "_pseudo_genomes.fas"] {
+                    dir.write(&format!("{tag}{suf}"), stale_fa.as_bytes());
+                }
+                for suf in ["_snps.vcf", "_indels.vcf"] {
+                    dir.write(&format!("{tag}{suf}"), stale_vcf.as_bytes());
+                }
+                probe("lo_run_over_existing_output_files");
+            }
             let mut a = vec!["lo".to_string(), "in.skf".into(), tag.clone(), "-m".into(), c.missing.clone(), "--threads".into(), threads.to_string()];
             if with_ref {
                 a.push("-r".into());
